@@ -488,6 +488,19 @@ class AwareASTNode(DataClassSerializeMixin):
 
             c._set_parent(self, f, i)
 
+        # A descendant that has just been attached may have taken this id
+        # (ids are not unique across a detached subtree)
+        if self.id in AwareASTNode._nodes:
+            raise ASTNodeRegistryCollisionError(
+                new_node=self,
+                existing_node=AwareASTNode._nodes[self.id],
+                operation=operation,
+            )
+
+        # The subtree may have changed while this node was detached and thus
+        # unreachable through the parent links used to propagate content ids
+        self._set_content_id()
+
         # Now we can safely attach this node to the registry
         AwareASTNode._nodes[self.id] = self
 
@@ -1121,7 +1134,7 @@ class AwareASTNode(DataClassSerializeMixin):
 
         if self.parent is None:
             return 0
-        elif relative_to is not None and self.parent == relative_to:
+        elif relative_to is not None and self.parent is relative_to:
             return 1
         else:
             return self.parent.get_depth(relative_to=relative_to, check_ancestor=False) + 1
@@ -1169,7 +1182,7 @@ class AwareASTNode(DataClassSerializeMixin):
         """Returns True if this node is an ancestor of `node`."""
         if node.parent is None:
             return False
-        elif node.parent == self:
+        elif node.parent is self:
             return True
         else:
             return self.is_ancestor(node.parent)
